@@ -295,9 +295,12 @@ def obligations(tier):
                             bounds='4 columns: first fixed per job, the other three over the first 12 menu entries', smoke=[[i0, 0, 1, 2, 4, 1]]))
     for s0 in range(len(STEPS)):
         for s1 in range(len(STEPS)):
-            obs.append(dict(name='hist[%s,%s]' % (STEPS[s0], STEPS[s1]), fn='h_hist', config={'s0': s0, 's1': s1, 'menu': 8 if q else 20, 'new': 4 if q else 6, 'H': 2 if q else 3}, budget=90 if q else 600,
+            if not q:
+                obs.append(dict(name='hist[H=2,%s,%s]' % (STEPS[s0], STEPS[s1]), fn='h_hist', config={'s0': s0, 's1': s1, 'menu': 14, 'new': 6, 'H': 2}, budget=400,
+                                bounds='2 start columns over the first 14 menu names; two steps fixed per job; 6 new names', smoke=[[0, 1, s0, s1, 0, 0, 1, 0]]))
+            obs.append(dict(name='hist[%s,%s]' % (STEPS[s0], STEPS[s1]), fn='h_hist', config={'s0': s0, 's1': s1, 'menu': 8 if q else 6, 'new': 4 if q else 3, 'H': 2 if q else 3}, budget=90 if q else 600,
                             bounds='2 start columns over the first %d menu names; first two steps fixed per job%s; new names from {zz,A,None,sum,"a b",if}; all accessor obligations re-asserted after every step'
-                            % (8 if q else 20, '' if q else ', every third step'), smoke=[[0, 1, s0, s1, 0, 0, 1, 0]]))
+                            % (8 if q else 6, '' if q else ', every third step'), smoke=[[0, 1, s0, s1, 0, 0, 1, 0]]))
     if not q:
         obs.append(dict(name='symbolic-str (bug hunting only)', fn='h_symbolic_str', config={}, budget=600, twin=False,
                         bounds='_sanitize_user_name on a symbolic str, len <= 3 (CrossHair string model; inconclusive by construction)'))
